@@ -10,7 +10,15 @@ fn run(c: &Mixed, obs: &mut Obs) -> Result<(), String> {
 }
 
 fn run_l<L: Language + 'static>(c: &Mixed, obs: &mut Obs) -> Result<(), String> {
-    let mut eg: EGraph<L> = new_egraph((), c.extraction_subst);
+    run_ln::<L, ()>(c, obs, ())
+}
+
+fn run_modify(c: &Mixed, obs: &mut Obs) -> Result<(), String> {
+    run_ln::<Core, crate::analyses::WrapElim>(c, obs, crate::analyses::WrapElim)
+}
+
+fn run_ln<L: Language + 'static, N: Analysis<L> + 'static>(c: &Mixed, obs: &mut Obs, n: N) -> Result<(), String> {
+    let mut eg: EGraph<L, N> = new_egraph(n, c.extraction_subst);
     // recorded: (i, j, step) handles observed equal at step
     let mut equal_pairs: Vec<(usize, usize, usize)> = Vec::new();
     let mut prev_slots: Vec<BTreeSet<Slot>> = Vec::new();
@@ -30,7 +38,7 @@ fn run_l<L: Language + 'static>(c: &Mixed, obs: &mut Obs) -> Result<(), String> 
     };
     let n_ops = c.ops.len();
     let mut lazy_end = false;
-    let st = drive::<L, ()>(c, &mut eg, &mut |eg, st, _op| {
+    let st = drive::<L, N>(c, &mut eg, &mut |eg, st, _op| {
         let step = st.step;
         if lazy {
             if step + 1 < n_ops {
@@ -182,6 +190,23 @@ pub fn property(tier: Tier) -> Property {
             panic_is_violation: true,
             render: |c: &Mixed| c.render(),
             rule: "as long-core, over a 5-name alphabet with leaves of up to 4 slots, mostly permuted copies, renamed copies and unions of a symmetric leaf with a smaller leaf over a subset of its names (several slots redundant in one step)",
+            case_timeout_s: tier.pick(30, 120),
+            exhaustive: false,
+        }));
+    }
+    {
+        // an analysis whose modify hook unions: w(w(x)) = x (the class an insertion is creating is merged away during that insertion)
+        let mut cfg = MixedCfg::for_lang(LangId::Core);
+        cfg.max_ops = tier.pick(12, 20);
+        cfg.hist.namings = crate::tm::Naming::diverse();
+        cfg.hist.gen.ops = Some(vec!["v", "f2", "g3", "c0", "w", "w", "w", "p", "lam"]);
+        stages.push(Box::new(Stage {
+            name: "long-core-modify-hook",
+            source: random(move || mixed_strategy(cfg.clone()), tier.pick(2500, 50_000)),
+            run: run_modify,
+            panic_is_violation: true,
+            render: |c: &Mixed| c.render(),
+            rule: "as long-core, on e-graphs with an analysis whose modify hook asserts w(w(x)) = x by a union of its own: the class an insertion creates is merged into an older class with slots during that very insertion, so the invocation the insertion returns is an old handle from the start",
             case_timeout_s: tier.pick(30, 120),
             exhaustive: false,
         }));
